@@ -3,16 +3,22 @@
    Several threads each own their own handle variables ([tvars], never touched by another thread).
    Handles of different threads may refer to the same payload block.  Every library call on a handle
    is split into its accesses to shared memory, in program order, as the code performs them
-   (String.hpp 24-28, 78-82, 193-202, 492-522; Variant.hpp 30-36, 87-122, 352-366;
+   (String.hpp 24-28, 78-82, 113-127, 142, 193-202, 492-522; Variant.hpp 30-36, 87-122, 352-366;
    RefCount.hpp 16-49; Xml.hpp 30-39, 62-75, 124-147):
 
      copy  d <- s   : plain read of s's block (`if(other.data->ref)`) ; atomic increment (+ store into d)
      drop  v        : plain read (`data->ref &&`) ; atomic decrement-and-fetch ; delete if the result was 0
-     assign d <- s  : plain read of s's block ; atomic increment ; plain read of d's block ;
-                      atomic decrement-and-fetch ; delete if 0 (+ store into d)
-     write v        : plain read of ref ; then either (ref == 1 [String: and capacity suffices]) the
-                      in-place modification, or: allocate and copy from the old payload ; plain read ;
-                      atomic decrement-and-fetch ; delete if 0 (+ store the clone into v)
+     assign d <- s  : (Variant: nothing at all when d and s are the same variable) plain read of s's block ;
+                      atomic increment ; plain read of d's block ; atomic decrement-and-fetch ; delete if 0
+                      (+ store into d)
+     write v m      : plain read of ref ; then either (ref == 1 [String: and the capacity suffices])
+                      the in-place modification, or: allocate and copy from the old payload ; plain read ;
+                      atomic decrement-and-fetch ; delete if 0 (+ store the clone into v).
+                      m = WAppend d : s.append(char d) | v.toList().append(d)     (grows by one marker)
+                      m = WReserve  : s.reserve(length + 64) | v.toList()          (write access only)
+                      m = WClear    : String::clear(): `ref == 1` -> length := 0 in place, else plain read ;
+                                      atomic decrement-and-fetch ; delete if 0 ; the handle becomes the
+                                      (uncounted) empty string, which the harness destroys at once
      read  v        : plain read of the payload
      swap  a b      : exchanges two handles of the same thread (no shared access)
 
@@ -21,27 +27,36 @@
    handle variable and registers are merged with the adjacent shared access: no other thread reads
    them.  Convention: a handle variable stops referring to its block at its atomic decrement (it is
    [pend]ing from then on); the clone / the assigned source is held in [tmp] until it is stored.
-   RefCount::Ptr performs no plain read before its atomic operations, and Variant::operator= skips a
-   self-assignment altogether; the model's extra accesses are harmless supersets of theirs.  The
-   in-place modification is one step: once `ref == 1` was read by the only holder, no other thread can
-   obtain a handle (handles never travel between threads), which is what [jclaim] in RcConcProofs states.  A schedule is a list of thread ids, chosen by the adversary.
+   RefCount::Ptr performs no plain read before its atomic operations; the model's extra plain reads are
+   harmless (they are not observable events, see [silent]).  The in-place modification is one step,
+   together with the plain read of length and capacity that String::detach makes after `ref == 1`: once
+   `ref == 1` was read by the only holder, no other thread can obtain a handle (handles never travel
+   between threads), which is what [jclaim] in RcConcProofs states.  A schedule is a list of thread
+   ids, chosen by the adversary.
 
    Monitors: every access to a released block is a fault (CUaf); releasing twice is a fault
    (CDouble); releasing a block while any handle variable or in-flight handle of any thread refers to
    it is a fault (CFreeReferenced); modifying a payload in place while the number of handles
-   referring to it is not exactly one is a fault (CSharedWrite); a counter below zero is a fault. *)
+   referring to it is not exactly one is a fault (CSharedWrite); a counter below zero is a fault.
+
+   Last part of the file: [replay], the acceptor for the access traces the harness records from the
+   real code (one event per atomic operation, allocation, release, copy from the old payload and
+   in-place modification, in the order in which the threads performed them). *)
 From Coq Require Import ZArith List Bool Arith.
 From Common Require Import ListAux.
+From Rc Require Import RcModel.
 Import ListNotations.
 Local Open Scope Z_scope.
 
-Record cblock := { crc : Z; cfreed : bool; cfrees : nat; cval : Z }.
+Record cblock := { crc : Z; cfreed : bool; cfrees : nat; cval : Z (* contents, RcModel.push *); ccap : Z (* String capacity *) }.
+
+Inductive wmode := WAppend (m : Z) | WReserve | WClear.
 
 Inductive cop :=
 | CCopy (d s : nat)               (* new (&d) H(s)                      d must be dead, s alive *)
 | CAssign (d s : nat)             (* d = s                              both alive *)
 | CDrop (v : nat)                 (* v.~H() *)
-| CWrite (v : nat) (force : bool) (* s.append(c) | v.toList().append(x) ; force: String capacity too small *)
+| CWrite (v : nat) (m : wmode)    (* write access through v, see above *)
 | CRead (v : nat)                 (* read the payload through v *)
 | CSwap (a b : nat).              (* exchange two own live handles (Ptr::swap, repaired) *)
 
@@ -55,8 +70,7 @@ Record thread := {
 
 Inductive cfault := CUaf (b : nat) | CDouble (b : nat) | CUnderflow (b : nat) | CSharedWrite (b : nat) | CFreeReferenced (b : nat).
 
-Record cstate := { cheap : list cblock; threads : list thread; cflt : option cfault;
-                   cvariant : bool (* write access tests `ref > 1` (Variant) instead of `ref == 1` (String) *) }.
+Record cstate := { cheap : list cblock; threads : list thread; cflt : option cfault; cflav : flavour }.
 
 Inductive action :=
 | ANone                (* nothing shared *)
@@ -65,10 +79,10 @@ Inductive action :=
 | AInc (b : nat)       (* atomic increment *)
 | ADec (b : nat)       (* atomic decrement, new value in reg *)
 | AFree (b : nat)      (* delete *)
-| AWrite (b : nat)     (* in-place modification of the payload *)
-| AAlloc (src : nat).  (* new block, count 1, payload copied from src and modified *)
+| AWrite (b : nat) (nv : Z)          (* in-place modification of the payload: the contents become nv *)
+| AAlloc (src : nat) (nv nc : Z).    (* new block, count 1, contents nv (copied from src and modified), capacity nc *)
 
-Definition dead_cblock : cblock := {| crc := 0; cfreed := true; cfrees := 0; cval := 0 |}.
+Definition dead_cblock : cblock := {| crc := 0; cfreed := true; cfrees := 0; cval := 0; ccap := 0 |}.
 Definition getcb (h : list cblock) (b : nat) : cblock := nth b h dead_cblock.
 
 Definition tv (th : thread) (v : nat) : option nat := nth v (tvars th) None.
@@ -98,11 +112,27 @@ Definition free_action (th : thread) : action :=
 Definition after_free_store (th : thread) (v : nat) : thread :=
   pop (set_tmp (set_var (set_pend th None) v (tmp th)) None).
 
-Definition inplace_test (variant : bool) (r : Z) : bool := if variant then negb (r >? 1) else r =? 1.
+(* write access tests `ref > 1` (Variant, Xml::Variant) or `ref == 1` (String); Variant::operator= returns at
+   once on a self-assignment *)
+Definition tests_gt1 (f : flavour) : bool := match f with FVar | FXml => true | _ => false end.
+Definition is_str (f : flavour) : bool := match f with FStr => true | _ => false end.
+Definition skips_self (f : flavour) : bool := match f with FVar => true | _ => false end.
+Definition inplace_test (f : flavour) (r : Z) : bool := if tests_gt1 f then negb (r >? 1) else r =? 1.
+(* clear() has an in-place branch for String only *)
+Definition inplace_ok (f : flavour) (m : wmode) (r : Z) : bool :=
+  inplace_test f r && match m with WClear => is_str f | _ => true end.
+Definition newval (m : wmode) (c : Z) : Z :=
+  match m with WAppend d => push c d | WReserve => c | WClear => 0 end.
+(* minCapacity of String::detach *)
+Definition need (m : wmode) (c : Z) : Z :=
+  match m with WAppend d => slen (push c d) | WReserve => slen c + 64 | WClear => 0 end.
+Definition fits (f : flavour) (k : cblock) (m : wmode) : bool :=
+  if is_str f then need m (cval k) <=? ccap k else true.
+Definition newcap (f : flavour) (m : wmode) (c : Z) : Z := if is_str f then Z.lor (need m c) 3 else 0.
 
 (* next shared access of the thread, and its local state afterwards given the value read /
    returned [res] and the index of a freshly allocated block [nb] *)
-Definition plan (variant : bool) (th : thread) : action * (Z -> nat -> thread) :=
+Definition plan (f : flavour) (h : list cblock) (th : thread) : action * (Z -> nat -> thread) :=
   match prog th with
   | [] => (ANone, fun _ _ => th)
   | CCopy d s :: _ =>
@@ -131,7 +161,8 @@ Definition plan (variant : bool) (th : thread) : action * (Z -> nat -> thread) :
       end
   | CAssign d s :: _ =>
       match phase th with
-      | 0%nat => match tv th d, tv th s with
+      | 0%nat => if skips_self f && Nat.eqb d s then (ANone, fun _ _ => pop th) else
+                 match tv th d, tv th s with
                  | Some _, Some b => (ATouch b, fun _ _ => goto th 1)
                  | _, _ => (ANone, fun _ _ => pop th)
                  end
@@ -149,16 +180,20 @@ Definition plan (variant : bool) (th : thread) : action * (Z -> nat -> thread) :
                  end
       | _ => (free_action th, fun _ _ => after_free_store th d)
       end
-  | CWrite v force :: _ =>
+  | CWrite v m :: _ =>
       match phase th with
       | 0%nat => match tv th v with
                  | Some b => (AReadRef b, fun r _ => goto (set_reg th r) 1)
                  | None => (ANone, fun _ _ => pop th)
                  end
       | 1%nat => match tv th v with
-                 | Some b => if inplace_test variant (reg th) && negb force
-                             then (AWrite b, fun _ _ => pop th)
-                             else (AAlloc b, fun _ nb => goto (set_tmp th (Some nb)) 2)
+                 | Some b => let c := cval (getcb h b) in
+                             if inplace_ok f m (reg th) && fits f (getcb h b) m
+                             then (AWrite b (newval m c), fun _ _ => pop th)
+                             else match m with
+                                  | WClear => (ATouch b, fun _ _ => goto th 3)        (* `data->ref &&` *)
+                                  | _ => (AAlloc b (newval m c) (newcap f m c), fun _ nb => goto (set_tmp th (Some nb)) 2)
+                                  end
                  | None => (ANone, fun _ _ => pop th)
                  end
       | 2%nat => match tv th v with
@@ -190,14 +225,14 @@ Definition heap_act (h : list cblock) (a : action) : list cblock * Z :=
   | ANone | ATouch _ => (h, 0)
   | AReadRef b => (h, crc (getcb h b))
   | AInc b => let k := getcb h b in
-              (updb h b {| crc := crc k + 1; cfreed := cfreed k; cfrees := cfrees k; cval := cval k |}, crc k + 1)
+              (updb h b {| crc := crc k + 1; cfreed := cfreed k; cfrees := cfrees k; cval := cval k; ccap := ccap k |}, crc k + 1)
   | ADec b => let k := getcb h b in
-              (updb h b {| crc := crc k - 1; cfreed := cfreed k; cfrees := cfrees k; cval := cval k |}, crc k - 1)
+              (updb h b {| crc := crc k - 1; cfreed := cfreed k; cfrees := cfrees k; cval := cval k; ccap := ccap k |}, crc k - 1)
   | AFree b => let k := getcb h b in
-               (updb h b {| crc := crc k; cfreed := true; cfrees := S (cfrees k); cval := cval k |}, 0)
-  | AWrite b => let k := getcb h b in
-                (updb h b {| crc := crc k; cfreed := cfreed k; cfrees := cfrees k; cval := cval k + 1 |}, 0)
-  | AAlloc src => (h ++ [{| crc := 1; cfreed := false; cfrees := 0; cval := cval (getcb h src) + 1 |}], 0)
+               (updb h b {| crc := crc k; cfreed := true; cfrees := S (cfrees k); cval := cval k; ccap := ccap k |}, 0)
+  | AWrite b nv => let k := getcb h b in
+                   (updb h b {| crc := crc k; cfreed := cfreed k; cfrees := cfrees k; cval := nv; ccap := ccap k |}, 0)
+  | AAlloc src nv nc => (h ++ [{| crc := 1; cfreed := false; cfrees := 0; cval := nv; ccap := nc |}], 0)
   end.
 
 (* handles referring to b: handle variables and in-flight handles *)
@@ -212,17 +247,17 @@ Definition monitor (st : cstate) (a : action) : option cfault :=
   let h := cheap st in
   match a with
   | ANone => None
-  | ATouch b | AReadRef b | AInc b | AAlloc b => if cfreed (getcb h b) then Some (CUaf b) else None
+  | ATouch b | AReadRef b | AInc b | AAlloc b _ _ => if cfreed (getcb h b) then Some (CUaf b) else None
   | ADec b => if cfreed (getcb h b) then Some (CUaf b)
               else if crc (getcb h b) - 1 <? 0 then Some (CUnderflow b) else None
   | AFree b => if cfreed (getcb h b) then Some (CDouble b)
                else if handles_total st b =? 0 then None else Some (CFreeReferenced b)
-  | AWrite b => if cfreed (getcb h b) then Some (CUaf b)
+  | AWrite b _ => if cfreed (getcb h b) then Some (CUaf b)
                 else if handles_total st b =? 1 then None else Some (CSharedWrite b)
   end.
 
 Definition with_flt (st : cstate) (f : cfault) : cstate :=
-  {| cheap := cheap st; threads := threads st; cflt := Some f; cvariant := cvariant st |}.
+  {| cheap := cheap st; threads := threads st; cflt := Some f; cflav := cflav st |}.
 
 (* perform access [a]; [k] gives the thread's local state afterwards *)
 Definition fire (st : cstate) (t : nat) (a : action) (k : Z -> nat -> thread) : cstate :=
@@ -231,7 +266,7 @@ Definition fire (st : cstate) (t : nat) (a : action) (k : Z -> nat -> thread) : 
   | None =>
       let '(h', res) := heap_act (cheap st) a in
       {| cheap := h'; threads := upd t (k res (length (cheap st))) (threads st);
-         cflt := None; cvariant := cvariant st |}
+         cflt := None; cflav := cflav st |}
   end.
 
 (* thread t performs its next access *)
@@ -244,7 +279,7 @@ Definition cstep (st : cstate) (t : nat) : cstate :=
       | Some th =>
           match prog th with
           | [] => st
-          | _ :: _ => let '(a, k) := plan (cvariant st) th in fire st t a k
+          | _ :: _ => let '(a, k) := plan (cflav st) (cheap st) th in fire st t a k
           end
       end
   end.
@@ -256,11 +291,12 @@ Definition run_sched (st : cstate) (sched : list nat) : cstate := fold_left cste
 Definition mk_thread (nv : nat) (c : nat * list cop) : thread :=
   {| tvars := repeat (Some 0%nat) (Nat.min (fst c) nv) ++ repeat None (nv - Nat.min (fst c) nv);
      tmp := None; pend := None; reg := 0; prog := snd c; phase := 0 |}.
-Definition cinit (variant : bool) (val : Z) (nv : nat) (cfg : list (nat * list cop)) : cstate :=
+Definition cinit (f : flavour) (val : Z) (nv : nat) (cfg : list (nat * list cop)) : cstate :=
   let ths := map (mk_thread nv) cfg in
   let n := sumz (tokc 0) ths in
-  {| cheap := if n =? 0 then [] else [{| crc := n; cfreed := false; cfrees := 0; cval := val |}];
-     threads := ths; cflt := None; cvariant := variant |}.
+  {| cheap := if n =? 0 then [] else [{| crc := n; cfreed := false; cfrees := 0; cval := val;
+                                        ccap := if is_str f then Z.lor (slen val) 3 else 0 |}];
+     threads := ths; cflt := None; cflav := f |}.
 
 Definition finished (st : cstate) : Prop := forall th, In th (threads st) -> prog th = [].
 Definition finishedb (st : cstate) : bool := forallb (fun th => match prog th with [] => true | _ => false end) (threads st).
@@ -275,3 +311,103 @@ Definition total_cfrees (st : cstate) : nat := fold_right (fun k a => (cfrees k 
 
 (* round-robin schedule long enough to finish every program: 5 accesses per call at most *)
 Definition steps_bound (cfg : list (nat * list cop)) : nat := fold_right (fun c a => (5 * length (snd c) + a)%nat) 0%nat cfg.
+
+(* ---- access traces of the implementation --------------------------------------------------------------
+   The harness records, in baton-passing mode, one event per access of the real code that it can observe:
+     EReadRef r : the counter of the handle's block as the write access / clear() is entered (read by the
+                  harness in the same scheduling segment in which the library reads it)
+     EInc r     : __sync_add_and_fetch(&ref, 1) returned r          (Atomic::increment)
+     EDec r     : __sync_add_and_fetch(&ref, -1) returned r         (Atomic::decrement)
+     EAlloc     : operator new[] of a payload block inside the call
+     ECopy      : Memory::copy out of a payload block (String) / first allocation made while the
+                  container is copy-constructed from the old payload (Variant, Xml::Variant)
+     EFree      : operator delete[] of a payload block / ~T() of the Ptr pointee
+     EWrite c   : the call returned with the handle still referring to the same block and no
+                  allocation: modified in place, contents now c
+   Plain reads of `ref` in front of an atomic operation and of the payload ([ATouch]) and steps without
+   shared access ([ANone]) leave no event: they are taken, in program order, immediately before the
+   thread's next event ([advance]).  [accept] lets thread [etid e] make exactly the step that event e
+   reports, and fails when the machine's next access is of another kind, returns another value, or
+   raises a fault. *)
+Inductive ekind := EReadRef | EInc | EDec | EFree | EWrite | EAlloc | ECopy.
+Record event := { etid : nat; ekind_of : ekind; eres : Z }.
+
+Definition silent (a : action) : bool := match a with ANone | ATouch _ => true | _ => false end.
+
+Definition next_action (st : cstate) (t : nat) : option action :=
+  match cflt st with
+  | Some _ => None
+  | None => match nth_error (threads st) t with
+            | Some th => match prog th with [] => None | _ :: _ => Some (fst (plan (cflav st) (cheap st) th)) end
+            | None => None
+            end
+  end.
+
+Fixpoint advance (fuel : nat) (st : cstate) (t : nat) : cstate * list nat :=
+  match fuel with
+  | O => (st, [])
+  | S n => match next_action st t with
+           | Some a => if silent a then let '(st', l) := advance n (cstep st t) t in (st', t :: l) else (st, [])
+           | None => (st, [])
+           end
+  end.
+
+Definition fuel_of (st : cstate) (t : nat) : nat :=
+  match nth_error (threads st) t with Some th => S (5 * length (prog th)) | None => O end.
+Definition reg_of (st : cstate) (t : nat) : Z :=
+  match nth_error (threads st) t with Some th => reg th | None => 0 end.
+
+(* st' is the state after the step *)
+Definition match_event (e : event) (a : action) (st' : cstate) : bool :=
+  match ekind_of e, a with
+  | EReadRef, AReadRef _ => reg_of st' (etid e) =? eres e
+  | EInc, AInc b => crc (getcb (cheap st') b) =? eres e
+  | EDec, ADec _ => reg_of st' (etid e) =? eres e
+  | EFree, AFree _ => true
+  | EWrite, AWrite _ nv => nv =? eres e
+  | EAlloc, AAlloc _ _ _ => true
+  | _, _ => false
+  end.
+
+(* the copy out of the old payload comes after the allocation and before the thread gives up its reference *)
+Definition at_copy_point (st : cstate) (t : nat) : bool :=
+  match nth_error (threads st) t with
+  | Some th => match prog th, phase th with CWrite _ _ :: _, 2%nat => true | _, _ => false end
+  | None => false
+  end.
+
+Definition accept (st : cstate) (e : event) : option (cstate * list nat) :=
+  let t := etid e in
+  match ekind_of e with
+  | ECopy => if at_copy_point st t then
+               let st' := cstep st t in
+               match cflt st' with None => Some (st', [t]) | Some _ => None end
+             else None
+  | _ => let '(st1, l) := advance (fuel_of st t) st t in
+         match next_action st1 t with
+         | Some a => let st' := cstep st1 t in
+                     match cflt st' with
+                     | Some _ => None
+                     | None => if match_event e a st' then Some (st', l ++ [t]) else None
+                     end
+         | None => None
+         end
+  end.
+
+(* the state reached, the schedule that leads there, and the events from the first rejected one on *)
+Fixpoint replay (st : cstate) (es : list event) : cstate * list nat * list event :=
+  match es with
+  | [] => (st, [], [])
+  | e :: r => match accept st e with
+              | Some (st', l) => let '(s2, l2, rest) := replay st' r in (s2, l ++ l2, rest)
+              | None => (st, [], es)
+              end
+  end.
+
+(* after the last event every thread must be able to complete without a further observable access *)
+Fixpoint finish (st : cstate) (ts : list nat) : cstate * list nat :=
+  match ts with
+  | [] => (st, [])
+  | t :: r => let '(s1, l1) := advance (fuel_of st t) st t in
+              let '(s2, l2) := finish s1 r in (s2, l1 ++ l2)
+  end.
